@@ -422,6 +422,7 @@ func runFsm(o fsmOpts) error {
 	dbdir := filepath.Join(o.out, "db")
 	os.RemoveAll(dbdir)
 	os.MkdirAll(dbdir, 0o755)
+	addFocusDirected(o.focus)
 	master := NewRng(o.seed)
 	seeds := make([]uint64, o.n)
 	for i := range seeds {
